@@ -15,3 +15,74 @@ Definition in_scope (c : case) : Prop :=
   | CCrt a1 m1 a2 m2 _ =>
       Z.abs a1 < 2 ^ 130 /\ Z.abs m1 < 2 ^ 130 /\ Z.abs a2 < 2 ^ 130 /\ Z.abs m2 < 2 ^ 130
   end.
+
+(** * Instrumented variants: same computation, plus the list of every intermediate value
+    (most recent first).  The second component is the trace. *)
+
+(** gcd: |a|, |b| (into_abs) and every remainder *)
+Definition gcd_step_t (s : Z * Z * list Z) : (Z * Z * list Z) + (Z * list Z) :=
+  let '(a, b, tr) := s in
+  if b =? 0 then inr (a, tr) else inl (b, Z.rem a b, Z.rem a b :: tr).
+
+Definition gcd_t (a b : Z) : option Z * list Z :=
+  match iter_pos gcd_step_t big_fuel (Z.abs a, Z.abs b, [Z.abs b; Z.abs a]) with
+  | inr (g, tr) => (Some g, tr)
+  | inl (_, _, tr) => (None, tr)
+  end.
+
+(** lcm: the trace of gcd, then |a| / g and the product with |b| *)
+Definition lcm_t (a b : Z) : option Z * list Z :=
+  let '(og, tr) := gcd_t a b in
+  match og with
+  | Some g =>
+      if g =? 0 then (None, tr)
+      else (Some (Z.quot (Z.abs a) g * Z.abs b),
+            Z.quot (Z.abs a) g * Z.abs b :: Z.quot (Z.abs a) g :: tr)
+  | None => (None, tr)
+  end.
+
+(** egcd: the arguments, every remainder and quotient of the descent, c % b0 and c / b0 at the
+    bottom, every product q*y0 and every difference x0 - q*y0 of the ascent *)
+Definition egcd_down_t (s : Z * Z * list Z * list Z)
+  : (Z * Z * list Z * list Z) + (Z * list Z * list Z) :=
+  let '(a, b, qs, tr) := s in
+  if a =? 0 then inr (b, qs, tr)
+  else inl (Z.rem b a, a, Z.quot b a :: qs, Z.quot b a :: Z.rem b a :: tr).
+
+Definition up_step_t : Z * Z * list Z -> Z -> Z * Z * list Z :=
+  fun '(y0, x0, tr) q => (x0 - q * y0, y0, (x0 - q * y0) :: q * y0 :: tr).
+
+Definition egcd_up_t (qs : list Z) (r : Z * Z * list Z) : Z * Z * list Z :=
+  fold_left up_step_t qs r.
+
+Definition egcd_t (a b c : Z) : outcome (option (Z * Z)) * list Z :=
+  match iter_pos egcd_down_t big_fuel (a, b, [], [c; b; a]) with
+  | inl (_, _, _, tr) => (Panic, tr)
+  | inr (b0, qs, tr) =>
+      if b0 =? 0 then (Panic, tr)
+      else if negb (Z.rem c b0 =? 0) then (Ret None, Z.rem c b0 :: tr)
+      else let '(x, y, tr') :=
+             egcd_up_t qs (0, Z.quot c b0, Z.quot c b0 :: Z.rem c b0 :: tr) in
+           (Ret (Some (x, y)), tr')
+  end.
+
+(** crt: the trace of gcd m1 m2, of egcd m1 (-m2) (a2-a1) (which starts with a2-a1, -m2, m1),
+    then m2/g, x % m2', x % m2' + m2', x', m1*x', m1*x' + a1 *)
+Definition crt_t (a1 m1 a2 m2 : Z) : outcome (option Z) * list Z :=
+  let '(og, tr1) := gcd_t m1 m2 in
+  match og with
+  | None => (Panic, tr1)
+  | Some g =>
+    let '(e, tr2) := egcd_t m1 (- m2) (a2 - a1) in
+    match e with
+    | Panic => (Panic, tr2 ++ tr1)
+    | Ret None => (Ret None, tr2 ++ tr1)
+    | Ret (Some (x, _)) =>
+        if g =? 0 then (Panic, tr2 ++ tr1) else
+        let m2' := Z.quot m2 g in
+        if m2' =? 0 then (Panic, m2' :: tr2 ++ tr1) else
+        let x' := Z.rem (Z.rem x m2' + m2') m2' in
+        (Ret (Some (m1 * x' + a1)),
+         [m1 * x' + a1; m1 * x'; x'; Z.rem x m2' + m2'; Z.rem x m2'; m2'] ++ tr2 ++ tr1)
+    end
+  end.
